@@ -17,12 +17,16 @@ type vContender struct {
 }
 
 func vLockSetup(override bool) (*vLinkFs, []*vContender) {
+	return vLockSetupWithIDs(override, "shared", "shared", "shared")
+}
+
+func vLockSetupWithIDs(override bool, ids ...string) (*vLinkFs, []*vContender) {
 	lfs := newLinkFs()
 	_ = lfs.MkdirAll(vLockDir, 0o755)
 	fs := NewVirtualFileSystem(lfs, InMemoryFS, IdentityPathConverterFunc).(*VFS)
 	var cs []*vContender
-	for _, n := range []string{"A", "B", "C"} {
-		l := NewGenericRemoteLockFile(fs, "shared", vLockDir, override).(*RemoteLockFile)
+	for i, n := range []string{"A", "B", "C"} {
+		l := NewGenericRemoteLockFile(fs, ids[i], vLockDir, override).(*RemoteLockFile)
 		cs = append(cs, &vContender{name: n, lock: l})
 	}
 	lfs.reset()
@@ -86,6 +90,35 @@ func VerifC01_SequentialProtocol() {
 			_ = c.unlock(ctx)
 		}
 	}
+}
+
+// VerifC01_PaddedIds: lock objects whose ids differ only by surrounding white
+// space name the same lock (the lock path is built from the trimmed id, the
+// heartbeat file from the id as given): while A holds it and its heartbeat
+// runs, nobody else acquires it, however long A has held it and whether or not
+// the contender overrides stale locks.
+func VerifC01_PaddedIds() {
+	spellings := []string{"shared", " shared", "shared\n", "\tshared "}
+	idA := spellings[verif.Choice("idA", len(spellings))]
+	idB := spellings[verif.Choice("idB", len(spellings))]
+	lfs, cs := vLockSetupWithIDs(verif.Bool("override"), idA, idB, "shared")
+	A, B := cs[0], cs[1]
+	verif.Assume(A.lock.lockPath() == B.lock.lockPath()) // the same lock
+	ctx := context.Background()
+	verif.Assume(A.tryLock(ctx) == nil) // precondition of this harness ("setup_acquire"), not a clause of the property
+	waits := []time.Duration{0, 49 * time.Millisecond, 101 * time.Millisecond, 333 * time.Millisecond}
+	n := verif.Len("attempts", 1, 2)
+	for k := 0; k < n; k++ {
+		verif.Advance(waits[verif.Choice("wait", len(waits))])
+		if verif.Bool("releaseIfStaleFirst") {
+			_ = B.lock.ReleaseIfStale(ctx)
+		}
+		_ = B.tryLock(ctx)
+		verif.Assert("at_most_one_holder", vHolders(cs) <= 1)
+		_, _, e := lfs.LstatIfPossible(A.lock.lockPath())
+		verif.Assert("live_lock_is_not_destroyed", e == nil)
+	}
+	verif.Assume(A.unlock(ctx) == nil) // precondition of this harness ("release"), not a clause of the property
 }
 
 // VerifC01_ReleaseVersusAcquire: holder A releases; contender B acquires
